@@ -138,6 +138,7 @@ Inductive judg :=
 
 Section Run.
   Variable g : grammar.
+  Variable rng : pos -> pos -> pres pos.   (* [range] for the parser; a check-free variant is used for uniqueness *)
 
   Inductive run : judg -> Prop :=
   | R_expr : forall rbp ts bp n lft ts2 e rest,
@@ -152,43 +153,43 @@ Section Run.
   | N_str : forall bp t ts, str_value (t_lexeme t) <> None -> run (JNud NStr bp t ts (EStr (tpos t) (t_lexeme t)) ts)
   | N_time : forall bp t ts, run (JNud NTime bp t ts (ETime (tpos t) (t_lexeme t)) ts)
   | N_prefix : forall bp t ts e ts1 p,
-      run (JExpr bp ts e ts1) -> range (tpos t) (expr_pos e) = POk p ->
+      run (JExpr bp ts e ts1) -> rng (tpos t) (expr_pos e) = POk p ->
       run (JNud NPrefix bp t ts (EUnary p (t_lexeme t) (tpos t) e true) ts1)
   | N_group : forall bp t ts e ts1 rp ts2 p,
-      run (JExpr 0 ts e ts1) -> must_eat K_RPAREN ts1 = POk (rp, ts2) -> range (tpos t) (tpos rp) = POk p ->
+      run (JExpr 0 ts e ts1) -> must_eat K_RPAREN ts1 = POk (rp, ts2) -> rng (tpos t) (tpos rp) = POk p ->
       run (JNud NGroup bp t ts (EGroup p e) ts2)
   | N_obj : forall bp t ts fs ts1 rb ts2 p,
-      run (JFields ts fs ts1) -> must_eat K_RBRACE ts1 = POk (rb, ts2) -> range (tpos t) (tpos rb) = POk p ->
+      run (JFields ts fs ts1) -> must_eat K_RBRACE ts1 = POk (rb, ts2) -> rng (tpos t) (tpos rb) = POk p ->
       run (JNud NObj bp t ts (EObj p fs) ts2)
   | N_map_empty : forall bp t ts c ts1 rb ts2 p,
-      try_eat K_COLON ts = Some (c, ts1) -> must_eat K_RBRACKET ts1 = POk (rb, ts2) -> range (tpos t) (tpos rb) = POk p ->
+      try_eat K_COLON ts = Some (c, ts1) -> must_eat K_RBRACKET ts1 = POk (rb, ts2) -> rng (tpos t) (tpos rb) = POk p ->
       run (JNud NListMap bp t ts (EMap p []) ts2)
   | N_list_empty : forall bp t ts rb ts1 p,
       try_eat K_COLON ts = None -> kind_is (peek ts) K_RBRACKET = true ->
-      must_eat K_RBRACKET ts = POk (rb, ts1) -> range (tpos t) (tpos rb) = POk p ->
+      must_eat K_RBRACKET ts = POk (rb, ts1) -> rng (tpos t) (tpos rb) = POk p ->
       run (JNud NListMap bp t ts (EList p []) ts1)
   | N_list1 : forall bp t ts e ts1 rb ts3 p,
       try_eat K_COLON ts = None -> kind_is (peek ts) K_RBRACKET = false ->
       run (JExpr 0 ts e ts1) -> try_eat K_COLON ts1 = None -> try_eat K_COMMA ts1 = None ->
-      must_eat K_RBRACKET ts1 = POk (rb, ts3) -> range (tpos t) (tpos rb) = POk p ->
+      must_eat K_RBRACKET ts1 = POk (rb, ts3) -> rng (tpos t) (tpos rb) = POk p ->
       run (JNud NListMap bp t ts (EList p [e]) ts3)
   | N_listn : forall bp t ts e ts1 c ts2 es ts2' rb ts3 p,
       try_eat K_COLON ts = None -> kind_is (peek ts) K_RBRACKET = false ->
       run (JExpr 0 ts e ts1) -> try_eat K_COLON ts1 = None -> try_eat K_COMMA ts1 = Some (c, ts2) ->
       run (JElems K_RBRACKET ts2 es ts2') ->
-      must_eat K_RBRACKET ts2' = POk (rb, ts3) -> range (tpos t) (tpos rb) = POk p ->
+      must_eat K_RBRACKET ts2' = POk (rb, ts3) -> rng (tpos t) (tpos rb) = POk p ->
       run (JNud NListMap bp t ts (EList p (e :: es)) ts3)
   | N_map1 : forall bp t ts k ts1 c ts2 v ts3 rb ts5 p,
       try_eat K_COLON ts = None -> kind_is (peek ts) K_RBRACKET = false ->
       run (JExpr 0 ts k ts1) -> try_eat K_COLON ts1 = Some (c, ts2) -> run (JExpr 0 ts2 v ts3) ->
       try_eat K_COMMA ts3 = None ->
-      must_eat K_RBRACKET ts3 = POk (rb, ts5) -> range (tpos t) (tpos rb) = POk p ->
+      must_eat K_RBRACKET ts3 = POk (rb, ts5) -> rng (tpos t) (tpos rb) = POk p ->
       run (JNud NListMap bp t ts (EMap p [(k, v)]) ts5)
   | N_mapn : forall bp t ts k ts1 c ts2 v ts3 c2 ts4 kvs ts4' rb ts5 p,
       try_eat K_COLON ts = None -> kind_is (peek ts) K_RBRACKET = false ->
       run (JExpr 0 ts k ts1) -> try_eat K_COLON ts1 = Some (c, ts2) -> run (JExpr 0 ts2 v ts3) ->
       try_eat K_COMMA ts3 = Some (c2, ts4) -> run (JPairs ts4 kvs ts4') ->
-      must_eat K_RBRACKET ts4' = POk (rb, ts5) -> range (tpos t) (tpos rb) = POk p ->
+      must_eat K_RBRACKET ts4' = POk (rb, ts5) -> rng (tpos t) (tpos rb) = POk p ->
       run (JNud NListMap bp t ts (EMap p ((k, v) :: kvs)) ts5)
   (* loops *)
   | E_close : forall close ts, kind_is (peek ts) close = true -> run (JElems close ts [] ts)
@@ -220,32 +221,32 @@ Section Run.
       run (JArgs ts (e :: es) rest)
   (* call *)
   | C_empty : forall callee lp ts rp ts1 p,
-      try_eat K_RPAREN ts = Some (rp, ts1) -> range (expr_pos callee) (tpos rp) = POk p ->
+      try_eat K_RPAREN ts = Some (rp, ts1) -> rng (expr_pos callee) (tpos rp) = POk p ->
       run (JCall callee lp ts (ECall p (Z.of_N (t_col lp)) callee []) ts1)
   | C_args : forall callee lp ts args ts1 rp ts2 p,
       try_eat K_RPAREN ts = None -> run (JArgs ts args ts1) -> must_eat K_RPAREN ts1 = POk (rp, ts2) ->
-      range (expr_pos callee) (tpos rp) = POk p ->
+      rng (expr_pos callee) (tpos rp) = POk p ->
       run (JCall callee lp ts (ECall p (Z.of_N (t_col lp)) callee args) ts2)
   (* led *)
   | L_bin : forall l bp left t ts fx r x ts1 p,
-      led_bin l bp = Some (fx, r) -> run (JExpr r ts x ts1) -> range (expr_pos left) (expr_pos x) = POk p ->
+      led_bin l bp = Some (fx, r) -> run (JExpr r ts x ts1) -> rng (expr_pos left) (expr_pos x) = POk p ->
       run (JLed l bp left t ts (EBinary p (t_lexeme t) (tpos t) fx left x) ts1)
   | L_postfix : forall bp left t ts p,
-      range (expr_pos left) (tpos t) = POk p ->
+      rng (expr_pos left) (tpos t) = POk p ->
       run (JLed LPostfix bp left t ts (EUnary p (t_lexeme t) (tpos t) left false) ts)
   | L_question : forall bp left t ts m ts1 c ts2 r ts3 p,
       run (JExpr 0 ts m ts1) -> must_eat K_COLON ts1 = POk (c, ts2) -> run (JExpr (bp - 8) ts2 r ts3) ->
-      range (expr_pos left) (expr_pos r) = POk p ->
+      rng (expr_pos left) (expr_pos r) = POk p ->
       run (JLed LQuestion bp left t ts (ETernary p (t_lexeme t) (tpos t) left m r) ts3)
   | L_call : forall bp left t ts e rest, run (JCall left t ts e rest) -> run (JLed LCall bp left t ts e rest)
   | L_sub : forall bp left t ts i ts1 rb ts2 p,
-      run (JExpr 0 ts i ts1) -> must_eat K_RBRACKET ts1 = POk (rb, ts2) -> range (expr_pos left) (tpos rb) = POk p ->
+      run (JExpr 0 ts i ts1) -> must_eat K_RBRACKET ts1 = POk (rb, ts2) -> rng (expr_pos left) (tpos rb) = POk p ->
       run (JLed LSubscript bp left t ts (ESub p (Z.of_N (t_col t)) left i) ts2)
   | L_dot : forall bp left t ts p,
-      range (expr_pos left) (tpos (peek ts)) = POk p -> try_eat K_LPAREN (tl ts) = None ->
+      rng (expr_pos left) (tpos (peek ts)) = POk p -> try_eat K_LPAREN (tl ts) = None ->
       run (JLed LDot bp left t ts (EMember p (Z.of_N (t_col t)) left (t_lexeme (peek ts)) (tpos (peek ts))) (tl ts))
   | L_dotcall : forall bp left t ts p lp ts2 e rest,
-      range (expr_pos left) (tpos (peek ts)) = POk p -> try_eat K_LPAREN (tl ts) = Some (lp, ts2) ->
+      rng (expr_pos left) (tpos (peek ts)) = POk p -> try_eat K_LPAREN (tl ts) = Some (lp, ts2) ->
       run (JCall (EMember p (Z.of_N (t_col t)) left (t_lexeme (peek ts)) (tpos (peek ts))) lp ts2 e rest) ->
       run (JLed LDot bp left t ts e rest)
   (* infix loop *)
@@ -258,6 +259,7 @@ Section Run.
   Lemma eat_peek_tl : forall ts, eat ts = (peek ts, tl ts).
   Proof. intros [|t r]; reflexivity. Qed.
 End Run.
+Notation runr g := (run g range).
 
 (* ---------- the functions compute the relation ---------- *)
 Ltac inv H := inversion H; subst; clear H.
@@ -273,11 +275,11 @@ Ltac bind_inv H :=
 Section FnRun.
   Variable g : grammar.
   Variable rec : Z -> list token -> pres (expr * list token).
-  Hypothesis Hrec : forall rbp ts e rest, rec rbp ts = POk (e, rest) -> run g (JExpr rbp ts e rest).
+  Hypothesis Hrec : forall rbp ts e rest, rec rbp ts = POk (e, rest) -> runr g (JExpr rbp ts e rest).
 
   Lemma elems_loop_run : forall n close ts acc res rest,
     elems_loop rec n close ts acc = POk (res, rest) ->
-    exists es, res = rev acc ++ es /\ run g (JElems close ts es rest).
+    exists es, res = rev acc ++ es /\ runr g (JElems close ts es rest).
   Proof.
     induction n as [|n IH]; intros close ts acc res rest H; cbn [elems_loop] in H; [discriminate|].
     destruct (kind_is (peek ts) close) eqn:Hc.
@@ -291,7 +293,7 @@ Section FnRun.
 
   Lemma pairs_loop_run : forall n ts acc res rest,
     pairs_loop rec n ts acc = POk (res, rest) ->
-    exists kvs, res = rev acc ++ kvs /\ run g (JPairs ts kvs rest).
+    exists kvs, res = rev acc ++ kvs /\ runr g (JPairs ts kvs rest).
   Proof.
     induction n as [|n IH]; intros ts acc res rest H; cbn [pairs_loop] in H; [discriminate|].
     destruct (kind_is (peek ts) K_RBRACKET) eqn:Hc.
@@ -306,7 +308,7 @@ Section FnRun.
 
   Lemma fields_loop_run : forall n ts acc res rest,
     fields_loop rec n ts acc = POk (res, rest) ->
-    exists fs, res = rev acc ++ fs /\ run g (JFields ts fs rest).
+    exists fs, res = rev acc ++ fs /\ runr g (JFields ts fs rest).
   Proof.
     induction n as [|n IH]; intros ts acc res rest H; cbn [fields_loop] in H; [discriminate|].
     destruct (kind_is (peek ts) K_RBRACE) eqn:Hc.
@@ -321,7 +323,7 @@ Section FnRun.
 
   Lemma args_loop_run : forall n ts acc res rest,
     args_loop rec n ts acc = POk (res, rest) ->
-    exists es, res = rev acc ++ es /\ run g (JArgs ts es rest).
+    exists es, res = rev acc ++ es /\ runr g (JArgs ts es rest).
   Proof.
     induction n as [|n IH]; intros ts acc res rest H; cbn [args_loop] in H; [discriminate|].
     bind_inv H. destruct x as [e ts1]. destruct (try_eat K_COMMA ts1) as [[c ts2]|] eqn:Hcm.
@@ -332,7 +334,7 @@ Section FnRun.
   Qed.
 
   Lemma parse_call_run : forall callee lp ts e rest,
-    parse_call rec callee lp ts = POk (e, rest) -> run g (JCall callee lp ts e rest).
+    parse_call rec callee lp ts = POk (e, rest) -> runr g (JCall callee lp ts e rest).
   Proof.
     intros callee lp ts e rest H. unfold parse_call in H.
     bind_inv H. destruct x as [[args rp] ts']. bind_inv H. inv H.
@@ -344,7 +346,7 @@ Section FnRun.
   Qed.
 
   Lemma nud_fn_run : forall n bp t ts e rest,
-    nud_fn rec n bp t ts = POk (e, rest) -> run g (JNud n bp t ts e rest).
+    nud_fn rec n bp t ts = POk (e, rest) -> runr g (JNud n bp t ts e rest).
   Proof.
     intros n bp t ts e rest H. destruct n; cbn [nud_fn] in H.
     - inv H. constructor.
@@ -380,7 +382,7 @@ Section FnRun.
   Qed.
 
   Lemma led_fn_run : forall l bp left t ts e rest,
-    led_fn rec l bp left t ts = POk (e, rest) -> run g (JLed l bp left t ts e rest).
+    led_fn rec l bp left t ts = POk (e, rest) -> runr g (JLed l bp left t ts e rest).
   Proof.
     intros l bp left t ts e rest H. destruct l; cbn [led_fn] in H.
     - bind_inv H. destruct x as [r ts1]. bind_inv H. inv H. eapply L_bin; eauto. reflexivity.
@@ -399,7 +401,7 @@ Section FnRun.
   Qed.
 
   Lemma infix_loop_run : forall n rbp left ts e rest,
-    infix_loop g rec n rbp left ts = POk (e, rest) -> run g (JLoop rbp left ts e rest).
+    infix_loop g rec n rbp left ts = POk (e, rest) -> runr g (JLoop rbp left ts e rest).
   Proof.
     induction n as [|n IH]; intros rbp left ts e rest H; cbn [infix_loop] in H; [discriminate|].
     destruct (Z.ltb rbp (infix_lbp g (peek ts))) eqn:Hlt.
@@ -410,7 +412,7 @@ Section FnRun.
   Qed.
 
   Lemma expr_step_run : forall rbp ts e rest,
-    expr_step g rec rbp ts = POk (e, rest) -> run g (JExpr rbp ts e rest).
+    expr_step g rec rbp ts = POk (e, rest) -> runr g (JExpr rbp ts e rest).
   Proof.
     intros rbp ts e rest H. unfold expr_step in H. rewrite eat_peek_tl in H.
     destruct (get (t_kind (peek ts)) (g_prefix g)) as [[bp n]|] eqn:Hg; [|discriminate].
@@ -420,7 +422,7 @@ Section FnRun.
 End FnRun.
 
 Lemma p_expr_run : forall g f rbp ts e rest,
-  p_expr g f rbp ts = POk (e, rest) -> run g (JExpr rbp ts e rest).
+  p_expr g f rbp ts = POk (e, rest) -> runr g (JExpr rbp ts e rest).
 Proof.
   induction f as [|f IH]; intros rbp ts e rest H; cbn [p_expr] in H; [discriminate|].
   eapply expr_step_run; [|exact H]. exact IH.
@@ -442,7 +444,7 @@ Definition P_nnc (j : judg) : Prop :=
   | JArgs _ es _ => forallb nnc es = true
   end.
 
-Lemma run_nnc : forall g j, run g j -> P_nnc j.
+Lemma run_nnc : forall g j, runr g j -> P_nnc j.
 Proof.
   intros g j H. induction H; cbn [P_nnc] in *; unfold nnc in *; cbn [no_nonassoc_chain forallb fst snd] in *;
     repeat match goal with H : ?x = true |- context [?x] => rewrite H end; cbn [andb]; auto.
@@ -678,7 +680,7 @@ Definition P_len (j : judg) : Prop :=
 Definition eof_free (g : grammar) : Prop :=
   get K_EOF (g_prefix g) = None /\ get K_EOF (g_infix g) = None.
 
-Lemma run_len : forall g j, eof_free g -> run g j -> P_len j.
+Lemma run_len : forall g j, eof_free g -> runr g j -> P_len j.
 Proof.
   intros g j [Hp Hi] H. induction H; cbn [P_len] in *; len_facts.
   1: { destruct ts as [|t0 r0]; [change (get K_EOF (g_prefix g) = Some (bp, n)) in H; rewrite Hp in H; discriminate|].
@@ -689,7 +691,7 @@ Proof.
            end; lia.
 Qed.
 
-Lemma run_len_expr : forall g rbp ts e rest, eof_free g -> run g (JExpr rbp ts e rest) -> (len rest < len ts)%nat.
+Lemma run_len_expr : forall g rbp ts e rest, eof_free g -> runr g (JExpr rbp ts e rest) -> (len rest < len ts)%nat.
 Proof. intros g rbp ts e rest Hg H. apply (run_len g _ Hg H). Qed.
 
 (* ---------- stage 3: the fuel suffices ---------- *)
@@ -708,7 +710,7 @@ Section NoFuel.
   Hypothesis Hg : eof_free g.
   Variable rec : Z -> list token -> pres (expr * list token).
   Variable B : nat.
-  Hypothesis Hrec_run : forall rbp ts e rest, rec rbp ts = POk (e, rest) -> run g (JExpr rbp ts e rest).
+  Hypothesis Hrec_run : forall rbp ts e rest, rec rbp ts = POk (e, rest) -> runr g (JExpr rbp ts e rest).
   Hypothesis Hrec_nf : forall rbp ts, (len ts < B)%nat -> rec rbp ts <> PFuel.
 
   Lemma rec_len : forall rbp ts e rest, rec rbp ts = POk (e, rest) -> (len rest < len ts)%nat.
@@ -855,3 +857,665 @@ Qed.
 
 Lemma no_fuel_table_ok : forall ops ts, table_ok ops = true -> parse_tokens ops ts <> PFuel.
 Proof. intros ops ts H. apply no_fuel_partial. apply table_ok_no_eof_operator. exact H. Qed.
+
+(* ---------- what [table_ok] guarantees about the grammar ---------- *)
+Definition notfixed (k : list N) : Prop := existsb (list_eqb k) fixed_kinds = false.
+
+Definition nud_kind (n : nud) : option (list N) :=
+  match n with
+  | NIdent => Some K_SYM | NTrue => Some K_TRUE | NFalse => Some K_FALSE | NNum => Some K_NUM | NStr => Some K_STR
+  | NTime => Some K_TIME | NListMap => Some K_LBRACKET | NObj => Some K_LBRACE | NGroup => Some K_LPAREN
+  | NPrefix => None
+  end.
+
+Definition led_kind (l : led) : option (list N * Z) :=
+  match l with
+  | LQuestion => Some (K_QUESTION, BP_COND) | LDot => Some (K_DOT, BP_MEMBER) | LCall => Some (K_LPAREN, BP_CALL)
+  | LSubscript => Some (K_LBRACKET, BP_MEMBER)
+  | _ => None
+  end.
+
+Definition nud_spec (k : list N) (bp : Z) (n : nud) : Prop :=
+  match nud_kind n with Some k' => k = k' /\ bp = 0 | None => notfixed k /\ 0 <= bp end.
+
+Definition led_spec (k : list N) (bp : Z) (l : led) : Prop :=
+  match led_kind l with
+  | Some (k', bp') => k = k' /\ bp = bp'
+  | None => notfixed k /\ 0 < bp /\ (l = LBinR -> 8 <= bp)
+  end.
+
+Record gram_ok (g : grammar) : Prop := {
+  go_eof : eof_free g;
+  go_prefix : forall k bp n, get k (g_prefix g) = Some (bp, n) -> nud_spec k bp n;
+  go_infix : forall k bp l, get k (g_infix g) = Some (bp, l) -> led_spec k bp l;
+  go_fixed_prefix : forall n k, nud_kind n = Some k -> get k (g_prefix g) = Some (0, n);
+  go_fixed_infix : forall l k bp, led_kind l = Some (k, bp) -> get k (g_infix g) = Some (bp, l)
+}.
+
+Lemma table_ok_in : forall ops o, table_ok ops = true -> In o ops ->
+  notfixed (o_kind o) /\
+  match o_fix o with
+  | 1%N => 0 <= o_bp o
+  | 4%N => 8 <= o_bp o
+  | 2%N | 3%N | 5%N => 0 < o_bp o
+  | _ => False
+  end.
+Proof.
+  intros ops o H Hin. unfold table_ok in H. rewrite forallb_forall in H. apply H in Hin.
+  apply andb_true_iff in Hin. destruct Hin as [H1 H2]. split.
+  - unfold notfixed. destruct (existsb (list_eqb (o_kind o)) fixed_kinds); [discriminate | reflexivity].
+  - destruct (o_fix o) as [|[[q|q|]|[q|q|]|]]; try discriminate; try (apply Z.leb_le; exact H2); try (apply Z.ltb_lt; exact H2);
+      destruct q; try discriminate; try (apply Z.leb_le; exact H2); try (apply Z.ltb_lt; exact H2).
+Qed.
+
+Lemma notfixed_neq : forall k k', notfixed k -> In k' fixed_kinds -> list_eqb k' k = false.
+Proof.
+  intros k k' H Hin. unfold notfixed in H. destruct (list_eqb k' k) eqn:E; [|reflexivity].
+  apply list_eqb_eq in E. subst k'.
+  assert (Hex : existsb (list_eqb k) fixed_kinds = true).
+  { apply existsb_exists. exists k. split; [exact Hin | apply list_eqb_refl]. }
+  congruence.
+Qed.
+
+Lemma get_ng_p0 : forall k bp n, get k ng_p0 = Some (bp, n) -> nud_kind n = Some k /\ bp = 0.
+Proof.
+  intros k bp n H. vm_compute in H.
+  repeat match type of H with
+  | (if ?c then _ else _) = _ =>
+      let E := fresh "E" in destruct c eqn:E;
+      [ inv H; split; [|reflexivity];
+        match goal with E : _ = true |- _ => apply (proj1 (list_eqb_eq k _)) in E; subst k; reflexivity end | ]
+  end.
+  discriminate.
+Qed.
+
+Lemma table_ok_gram_ok : forall ops, table_ok ops = true -> gram_ok (new_grammar ops).
+Proof.
+  intros ops Hok.
+  assert (Huntouched : forall k, In k fixed_kinds ->
+            get k (fst (fold_left ng_step (sort_ops (fun o => byte_len (o_kind o)) ops) (ng_p0, []))) = get k ng_p0 /\
+            get k (snd (fold_left ng_step (sort_ops (fun o => byte_len (o_kind o)) ops) (ng_p0, []))) = None).
+  { intros k Hk. apply ng_fold_untouched. intros o Hin. apply in_sort_ops in Hin.
+    destruct (table_ok_in ops o Hok Hin) as [Hnf _]. apply notfixed_neq; assumption. }
+  constructor.
+  - apply no_eof_operator_grammar. apply table_ok_no_eof_operator. exact Hok.
+  - intros k bp n H. rewrite new_grammar_eq in H. cbn [g_prefix] in H.
+    apply ng_fold_prefix in H. destruct H as [H|[-> [o [Hin [Hk [Hbp Hfix]]]]]].
+    + apply get_ng_p0 in H. destruct H as [H ->]. unfold nud_spec. rewrite H. split; reflexivity.
+    + apply in_sort_ops in Hin. destruct (table_ok_in ops o Hok Hin) as [Hnf Hb]. rewrite Hfix in Hb.
+      subst. split; assumption.
+  - intros k bp l H. rewrite new_grammar_eq in H. cbn [g_infix] in H. unfold ng_fixed_infix in H.
+    rewrite !get_put in H.
+    destruct (list_eqb k K_LBRACKET) eqn:E1; [apply list_eqb_eq in E1; inv H; split; reflexivity|].
+    destruct (list_eqb k K_LPAREN) eqn:E2; [apply list_eqb_eq in E2; inv H; split; reflexivity|].
+    destruct (list_eqb k K_DOT) eqn:E3; [apply list_eqb_eq in E3; inv H; split; reflexivity|].
+    destruct (list_eqb k K_QUESTION) eqn:E4; [apply list_eqb_eq in E4; inv H; split; reflexivity|].
+    apply ng_fold_infix in H. destruct H as [H|[o [Hin [Hk [Hbp Hfix]]]]]; [discriminate|].
+    apply in_sort_ops in Hin. destruct (table_ok_in ops o Hok Hin) as [Hnf Hb]. subst k bp.
+    unfold led_spec. destruct (o_fix o) as [|[[q|q|]|[q|q|]|]]; try discriminate; try destruct q; try discriminate;
+      cbn in Hfix; inv Hfix; cbn [led_kind]; (split; [exact Hnf|]); (split; [lia|]); intro; try discriminate; lia.
+  - intros n k Hn. rewrite new_grammar_eq. cbn [g_prefix].
+    assert (Hin : In k fixed_kinds).
+    { destruct n; inv Hn; cbn; tauto. }
+    destruct (Huntouched k Hin) as [-> _]. destruct n; inv Hn; reflexivity.
+  - intros l k bp Hl. rewrite new_grammar_eq. cbn [g_infix]. unfold ng_fixed_infix. rewrite !get_put.
+    assert (Hin : In k fixed_kinds).
+    { destruct l; inv Hl; cbn; tauto. }
+    destruct (Huntouched k Hin) as [_ ->]. destruct l; inv Hl; reflexivity.
+Qed.
+
+(* ---------- stage 4: the accepted tree yields the tokens ---------- *)
+Lemma no_eof_cons_inv : forall t r, no_eof (t :: r) = true -> is_eof t = false /\ no_eof r = true.
+Proof.
+  intros t r H. unfold no_eof in H. cbn [forallb] in H. apply andb_true_iff in H. destruct H as [H1 H2].
+  split; [destruct (is_eof t); [discriminate | reflexivity] | exact H2].
+Qed.
+
+Lemma no_eof_app_inv : forall a b, no_eof (a ++ b) = true -> no_eof a = true /\ no_eof b = true.
+Proof. intros a b H. unfold no_eof in *. rewrite forallb_app in H. apply andb_true_iff in H. exact H. Qed.
+
+Lemma no_eof_tl : forall ts, no_eof ts = true -> no_eof (tl ts) = true.
+Proof. intros [|t r] H; [exact H|]. apply no_eof_cons_inv in H. apply H. Qed.
+
+Lemma tpos_noeof : forall t, is_eof t = false -> tpos t = tok_pos t.
+Proof. intros t H. unfold tpos. rewrite H. reflexivity. Qed.
+
+Lemma range_ok : forall a b p, range a b = POk p -> p = span a b /\ p_idx a <= p_idx b.
+Proof.
+  intros a b p H. unfold range in H. destruct (Z.leb (p_idx a) (p_idx b)) eqn:E; inv H.
+  split; [reflexivity | apply Z.leb_le; exact E].
+Qed.
+
+Lemma must_eat_cons : forall k ts t r,
+  must_eat k ts = POk (t, r) -> list_eqb K_EOF k = false -> ts = t :: r /\ t_kind t = k.
+Proof.
+  intros k ts t r H Hk. apply must_eat_inv in H. destruct H as [-> [-> H]].
+  destruct ts as [|t0 r0].
+  - unfold kind_is in H. cbn in H. change (list_eqb K_EOF k = true) in H. congruence.
+  - cbn [peek tl]. split; [reflexivity|]. cbn [peek] in H. apply list_eqb_eq in H. exact H.
+Qed.
+
+Lemma try_eat_cons : forall k ts t r,
+  try_eat k ts = Some (t, r) -> list_eqb K_EOF k = false -> ts = t :: r /\ t_kind t = k.
+Proof.
+  intros k ts t r H Hk. apply try_eat_some in H. destruct H as [-> [-> H]].
+  destruct ts as [|t0 r0].
+  - unfold kind_is in H. cbn in H. change (list_eqb K_EOF k = true) in H. congruence.
+  - cbn [peek tl]. split; [reflexivity|]. cbn [peek] in H. apply list_eqb_eq in H. exact H.
+Qed.
+
+Lemma is_kind_intro : forall k t, t_kind t = k -> list_eqb k K_EOF = false -> is_kind k t.
+Proof. intros k t H Hk. split; [exact H|]. unfold is_eof. rewrite H. exact Hk. Qed.
+
+Lemma yields_idx_nonneg : forall g e u, yields g e u -> 0 <= p_idx (expr_pos e).
+Proof.
+  intros g e u H. apply yields_span in H. destruct H as [_ H]. rewrite H. cbn [span p_idx tok_pos]. lia.
+Qed.
+
+Lemma sep_by_nil_inv : forall comma all, sep_by comma [] all -> all = [].
+Proof. intros comma all H. inversion H. reflexivity. Qed.
+
+Lemma sep_extend : forall {A} (R : A -> list token -> Prop) x u c xs tss tes tc,
+  R x u -> is_kind K_COMMA c -> Forall2 R xs tss -> sep_by (is_kind K_COMMA) tss tes -> opt_comma tc ->
+  (xs = [] -> tc = []) ->
+  exists tss' tes' tc', Forall2 R (x :: xs) tss' /\ sep_by (is_kind K_COMMA) tss' tes' /\ opt_comma tc' /\
+                        tes' ++ tc' = u ++ c :: tes ++ tc.
+Proof.
+  intros A R x u c xs tss tes tc Hx Hc HF Hs Ho Hnil. destruct xs as [|x1 xs].
+  - inv HF. apply sep_by_nil_inv in Hs. subst tes. rewrite (Hnil eq_refl).
+    exists [u], u, [c]. split; [constructor; [exact Hx | constructor]|].
+    split; [constructor|]. split; [right; exists c; split; [exact Hc | reflexivity]|]. reflexivity.
+  - exists (u :: tss), (u ++ c :: tes), tc. split; [constructor; assumption|].
+    split; [constructor; [exact Hc | inv HF; discriminate | exact Hs]|]. split; [exact Ho|].
+    rewrite <- app_assoc. reflexivity.
+Qed.
+
+Ltac noeof_split :=
+  repeat match goal with
+  | H : no_eof (_ ++ _) = true |- _ => apply no_eof_app_inv in H; destruct H
+  | H : no_eof (_ :: _) = true |- _ => apply no_eof_cons_inv in H; destruct H
+  end.
+
+Ltac lnorm := cbn [app]; repeat (rewrite <- app_assoc; cbn [app]).
+
+Ltac eat_all :=
+  repeat match goal with
+  | H : must_eat _ ?ts = POk (_, _) |- _ =>
+      apply must_eat_cons in H; [|reflexivity]; let Hk := fresh "Hk" in destruct H as [? Hk]; subst ts
+  | H : try_eat _ ?ts = Some (_, _) |- _ =>
+      apply try_eat_cons in H; [|reflexivity]; let Hk := fresh "Hk" in destruct H as [? Hk]; subst ts
+  end.
+
+Ltac range_all :=
+  repeat match goal with
+  | H : range _ _ = POk ?p |- _ => apply range_ok in H; let Hi := fresh "Hidx" in destruct H as [? Hi]; subst p
+  end.
+
+Section Yields.
+  Variable g : grammar.
+  Hypothesis Hg : gram_ok g.
+
+  Definition pair_rel (kv : expr * expr) (ts : list token) : Prop :=
+    exists tk c tv, is_kind K_COLON c /\ yields g (fst kv) tk /\ yields g (snd kv) tv /\ ts = tk ++ c :: tv.
+  Definition field_rel (f : list N * expr) (ts : list token) : Prop :=
+    exists n c tv, is_kind K_SYM n /\ is_kind K_COLON c /\ fst f = t_lexeme n /\ yields g (snd f) tv /\ ts = n :: c :: tv.
+
+  Definition P_y (j : judg) : Prop :=
+    match j with
+    | JExpr _ ts e rest => no_eof ts = true -> exists used, ts = used ++ rest /\ yields g e used
+    | JNud n bp t ts e rest =>
+        get (t_kind t) (g_prefix g) = Some (bp, n) -> is_eof t = false -> no_eof ts = true ->
+        exists used, ts = used ++ rest /\ yields g e (t :: used)
+    | JLoop _ lft ts e rest =>
+        forall ul, yields g lft ul -> no_eof ts = true -> exists used, ts = used ++ rest /\ yields g e (ul ++ used)
+    | JLed l bp lft t ts e rest =>
+        forall ul, get (t_kind t) (g_infix g) = Some (bp, l) -> is_eof t = false -> yields g lft ul -> no_eof ts = true ->
+        exists used, ts = used ++ rest /\ yields g e (ul ++ t :: used)
+    | JCall callee lp ts e rest =>
+        forall uc, is_kind K_LPAREN lp -> yields g callee uc -> no_eof ts = true ->
+        exists used, ts = used ++ rest /\ yields g e (uc ++ lp :: used)
+    | JElems _ ts es rest =>
+        no_eof ts = true ->
+        exists tss tes tc, Forall2 (yields g) es tss /\ sep_by (is_kind K_COMMA) tss tes /\ opt_comma tc /\
+                           (es = [] -> tc = []) /\ ts = tes ++ tc ++ rest
+    | JPairs ts kvs rest =>
+        no_eof ts = true ->
+        exists tss tes tc, Forall2 pair_rel kvs tss /\ sep_by (is_kind K_COMMA) tss tes /\ opt_comma tc /\
+                           (kvs = [] -> tc = []) /\ ts = tes ++ tc ++ rest
+    | JFields ts fs rest =>
+        no_eof ts = true ->
+        exists tss tes tc, Forall2 field_rel fs tss /\ sep_by (is_kind K_COMMA) tss tes /\ opt_comma tc /\
+                           (fs = [] -> tc = []) /\ ts = tes ++ tc ++ rest
+    | JArgs ts es rest =>
+        no_eof ts = true ->
+        exists tss tes, Forall2 (yields g) es tss /\ sep_by (is_kind K_COMMA) tss tes /\ ts = tes ++ rest
+    end.
+
+  Ltac nud_kind_of H :=
+    let Hk := fresh "Hkind" in
+    pose proof (go_prefix g Hg _ _ _ H) as Hk; unfold nud_spec in Hk; cbn [nud_kind] in Hk; destruct Hk as [Hk ?].
+  Ltac led_kind_of H :=
+    let Hk := fresh "Hkind" in
+    pose proof (go_infix g Hg _ _ _ H) as Hk; unfold led_spec in Hk; cbn [led_kind] in Hk; destruct Hk as [Hk ?].
+  Ltac ik := apply is_kind_intro; [assumption | reflexivity].
+
+  Lemma peek_prefix_cons : forall ts bp n, get (t_kind (peek ts)) (g_prefix g) = Some (bp, n) -> ts = peek ts :: tl ts.
+  Proof.
+    intros [|t r] bp n H; [|reflexivity]. change (get K_EOF (g_prefix g) = Some (bp, n)) in H.
+    destruct (go_eof g Hg) as [Hp _]. congruence.
+  Qed.
+  Lemma peek_infix_cons : forall ts bp l, get (t_kind (peek ts)) (g_infix g) = Some (bp, l) -> ts = peek ts :: tl ts.
+  Proof.
+    intros [|t r] bp l H; [|reflexivity]. change (get K_EOF (g_infix g) = Some (bp, l)) in H.
+    destruct (go_eof g Hg) as [_ Hi]. congruence.
+  Qed.
+
+  Lemma run_yields : forall j, runr g j -> P_y j.
+  Proof.
+    intros j H. induction H; cbn [P_y] in *.
+    - (* R_expr *) intros Hne. pose proof (peek_prefix_cons _ _ _ H) as Hts.
+      destruct ts as [|t0 r0]; [discriminate|]. cbn [peek tl] in *. noeof_split.
+      destruct (IHrun1 H ltac:(assumption) ltac:(assumption)) as [u1 [-> Hy1]]. noeof_split.
+      destruct (IHrun2 _ Hy1 ltac:(assumption)) as [u2 [-> Hy2]].
+      exists (t0 :: u1 ++ u2). split; [lnorm; reflexivity | exact Hy2].
+    - (* ident *) intros Hget Ht Hne. nud_kind_of Hget. exists []. split; [reflexivity|].
+      rewrite tpos_noeof by assumption. constructor. ik.
+    - intros Hget Ht Hne. nud_kind_of Hget. exists []. split; [reflexivity|].
+      rewrite tpos_noeof by assumption. constructor. ik.
+    - intros Hget Ht Hne. nud_kind_of Hget. exists []. split; [reflexivity|].
+      rewrite tpos_noeof by assumption. constructor. ik.
+    - intros Hget Ht Hne. nud_kind_of Hget. exists []. split; [reflexivity|].
+      rewrite tpos_noeof by assumption. constructor; [ik | assumption].
+    - intros Hget Ht Hne. nud_kind_of Hget. exists []. split; [reflexivity|].
+      rewrite tpos_noeof by assumption. constructor; [ik | assumption].
+    - intros Hget Ht Hne. nud_kind_of Hget. exists []. split; [reflexivity|].
+      rewrite tpos_noeof by assumption. constructor. ik.
+    - (* prefix *) intros Hget Ht Hne. destruct (IHrun Hne) as [u [-> Hy]]. range_all.
+      rewrite !tpos_noeof by assumption. exists u. split; [reflexivity|].
+      eapply Y_prefix; [assumption | | exact Hy]. unfold prefix_bp. rewrite Hget. reflexivity.
+    - (* group *) intros Hget Ht Hne. nud_kind_of Hget. destruct (IHrun Hne) as [u [-> Hy]]. noeof_split. eat_all.
+      noeof_split. range_all. rewrite !tpos_noeof by assumption. exists (u ++ [rp]). split; [lnorm; reflexivity|].
+      apply Y_group; [ik | ik | exact Hy].
+    - (* obj *) intros Hget Ht Hne. nud_kind_of Hget.
+      destruct (IHrun Hne) as [tss [tes [tc [HF [Hs [Ho [Hnil ->]]]]]]]. noeof_split. eat_all. noeof_split. range_all.
+      rewrite !tpos_noeof by assumption. exists (tes ++ tc ++ [rb]). split; [lnorm; reflexivity|].
+      eapply Y_obj; eauto; ik.
+    - (* map empty *) intros Hget Ht Hne. nud_kind_of Hget. eat_all. noeof_split. range_all.
+      rewrite !tpos_noeof by assumption. exists [c; rb]. split; [reflexivity|].
+      apply Y_map_empty; ik.
+    - (* list empty *) intros Hget Ht Hne. nud_kind_of Hget. eat_all. noeof_split. range_all.
+      rewrite !tpos_noeof by assumption. exists [rb]. split; [reflexivity|].
+      apply (Y_list g t rb [] [] [] []); try ik; try constructor; auto.
+    - (* list1 *) intros Hget Ht Hne. nud_kind_of Hget. destruct (IHrun Hne) as [u [-> Hy]]. noeof_split. eat_all.
+      noeof_split. range_all. rewrite !tpos_noeof by assumption. exists (u ++ [rb]). split; [lnorm; reflexivity|].
+      apply (Y_list g t rb [e] [u] u []); try ik.
+      + constructor; [exact Hy | constructor].
+      + constructor.
+      + left; reflexivity.
+      + reflexivity.
+    - (* listn *) intros Hget Ht Hne. nud_kind_of Hget. destruct (IHrun1 Hne) as [u [-> Hy]]. noeof_split.
+      match goal with H : try_eat K_COMMA _ = Some _ |- _ => apply try_eat_cons in H; [|reflexivity]; destruct H as [-> Hkc] end.
+      noeof_split.
+      destruct (IHrun2 ltac:(assumption)) as [tss [tes [tc [HF [Hs [Ho [Hnil ->]]]]]]]. noeof_split. eat_all. noeof_split.
+      range_all. rewrite !tpos_noeof by assumption.
+      destruct (sep_extend (yields g) e u c es tss tes tc Hy ltac:(ik) HF Hs Ho Hnil) as [tss' [tes' [tc' [HF' [Hs' [Ho' Heq]]]]]].
+      exists (u ++ c :: tes ++ tc ++ [rb]). split; [lnorm; reflexivity|].
+      replace (u ++ c :: tes ++ tc ++ [rb]) with (tes' ++ tc' ++ [rb])
+        by (rewrite app_assoc, Heq; lnorm; reflexivity).
+      apply (Y_list g t rb (e :: es) tss' tes' tc'); auto; try ik. discriminate.
+    - (* map1 *) intros Hget Ht Hne. nud_kind_of Hget. destruct (IHrun1 Hne) as [u1 [-> Hy1]]. noeof_split.
+      match goal with H : try_eat K_COLON _ = Some _ |- _ => apply try_eat_cons in H; [|reflexivity]; destruct H as [-> Hkc] end.
+      noeof_split. destruct (IHrun2 ltac:(assumption)) as [u2 [-> Hy2]]. noeof_split. eat_all. noeof_split.
+      range_all. rewrite !tpos_noeof by assumption.
+      exists (u1 ++ c :: u2 ++ [rb]). split; [lnorm; reflexivity|].
+      replace (u1 ++ c :: u2 ++ [rb]) with ((u1 ++ c :: u2) ++ [] ++ [rb]) by (lnorm; reflexivity).
+      apply (Y_map g t rb [(k, v)] [u1 ++ c :: u2] (u1 ++ c :: u2) []); try ik; try discriminate.
+      + constructor; [|constructor]. exists u1, c, u2. repeat split; auto; ik.
+      + constructor.
+      + left; reflexivity.
+    - (* mapn *) intros Hget Ht Hne. nud_kind_of Hget. destruct (IHrun1 Hne) as [u1 [-> Hy1]]. noeof_split.
+      match goal with H : try_eat K_COLON _ = Some _ |- _ => apply try_eat_cons in H; [|reflexivity]; destruct H as [-> Hkc] end.
+      noeof_split. destruct (IHrun2 ltac:(assumption)) as [u2 [-> Hy2]]. noeof_split.
+      match goal with H : try_eat K_COMMA _ = Some _ |- _ => apply try_eat_cons in H; [|reflexivity]; destruct H as [-> Hkc2] end.
+      noeof_split.
+      destruct (IHrun3 ltac:(assumption)) as [tss [tes [tc [HF [Hs [Ho [Hnil ->]]]]]]]. noeof_split. eat_all. noeof_split.
+      range_all. rewrite !tpos_noeof by assumption.
+      assert (Hp : pair_rel (k, v) (u1 ++ c :: u2)).
+      { exists u1, c, u2. repeat split; auto; ik. }
+      destruct (sep_extend pair_rel (k, v) (u1 ++ c :: u2) c2 kvs tss tes tc Hp ltac:(ik) HF Hs Ho Hnil)
+        as [tss' [tes' [tc' [HF' [Hs' [Ho' Heq]]]]]].
+      exists (u1 ++ c :: u2 ++ c2 :: tes ++ tc ++ [rb]). split; [lnorm; reflexivity|].
+      replace (u1 ++ c :: u2 ++ c2 :: tes ++ tc ++ [rb]) with (tes' ++ tc' ++ [rb])
+        by (rewrite app_assoc, Heq; lnorm; reflexivity).
+      apply (Y_map g t rb ((k, v) :: kvs) tss' tes' tc'); auto; try ik. discriminate.
+    - (* E_close *) intros Hne. exists [], [], []. repeat split; auto; try constructor. all: try reflexivity; try (left; reflexivity).
+    - (* E_last *) intros Hne. destruct (IHrun Hne) as [u [-> Hy]].
+      exists [u], u, []. repeat split; auto; try constructor; auto. all: try reflexivity; try (left; reflexivity).
+    - (* E_more *) intros Hne. destruct (IHrun1 Hne) as [u [-> Hy]]. noeof_split.
+      match goal with H : try_eat K_COMMA _ = Some _ |- _ => apply try_eat_cons in H; [|reflexivity]; destruct H as [-> Hkc] end.
+      noeof_split.
+      destruct (IHrun2 ltac:(assumption)) as [tss [tes [tc [HF [Hs [Ho [Hnil ->]]]]]]].
+      destruct (sep_extend (yields g) e u c es tss tes tc Hy ltac:(ik) HF Hs Ho Hnil) as [tss' [tes' [tc' [HF' [Hs' [Ho' Heq]]]]]].
+      exists tss', tes', tc'. repeat split; auto; try discriminate.
+      rewrite (app_assoc tes' tc' rest), Heq. lnorm. reflexivity.
+    - (* P_close *) intros Hne. exists [], [], []. repeat split; auto; try constructor. all: try reflexivity; try (left; reflexivity).
+    - (* P_last *) intros Hne. destruct (IHrun1 Hne) as [u1 [-> Hy1]]. noeof_split. eat_all. noeof_split.
+      destruct (IHrun2 ltac:(assumption)) as [u2 [-> Hy2]].
+      exists [u1 ++ c :: u2], (u1 ++ c :: u2), []. repeat split; auto; try constructor; auto.
+      + exists u1, c, u2. repeat split; auto; ik.
+      + lnorm. reflexivity.
+    - (* P_more *) intros Hne. destruct (IHrun1 Hne) as [u1 [-> Hy1]]. noeof_split. eat_all. noeof_split.
+      destruct (IHrun2 ltac:(assumption)) as [u2 [-> Hy2]]. noeof_split.
+      noeof_split.
+      destruct (IHrun3 ltac:(assumption)) as [tss [tes [tc [HF [Hs [Ho [Hnil ->]]]]]]].
+      assert (Hp : pair_rel (k, v) (u1 ++ c :: u2)).
+      { exists u1, c, u2. repeat split; auto; ik. }
+      destruct (sep_extend pair_rel (k, v) (u1 ++ c :: u2) c2 kvs tss tes tc Hp ltac:(ik) HF Hs Ho Hnil)
+        as [tss' [tes' [tc' [HF' [Hs' [Ho' Heq]]]]]].
+      exists tss', tes', tc'. repeat split; auto; try discriminate.
+      rewrite (app_assoc tes' tc' rest), Heq. lnorm. reflexivity.
+    - (* F_close *) intros Hne. exists [], [], []. repeat split; auto; try constructor. all: try reflexivity; try (left; reflexivity).
+    - (* F_last *) intros Hne. eat_all. noeof_split.
+      destruct (IHrun ltac:(assumption)) as [u [-> Hy]].
+      exists [nm :: c :: u], (nm :: c :: u), []. repeat split; auto; try constructor; auto.
+      + exists nm, c, u. repeat split; auto; ik.
+    - (* F_more *) intros Hne. eat_all. noeof_split.
+      destruct (IHrun1 ltac:(assumption)) as [u [-> Hy]]. noeof_split.
+      noeof_split.
+      destruct (IHrun2 ltac:(assumption)) as [tss [tes [tc [HF [Hs [Ho [Hnil ->]]]]]]].
+      assert (Hp : field_rel (t_lexeme nm, v) (nm :: c :: u)).
+      { exists nm, c, u. repeat split; auto; ik. }
+      destruct (sep_extend field_rel (t_lexeme nm, v) (nm :: c :: u) c2 fs tss tes tc Hp ltac:(ik) HF Hs Ho Hnil)
+        as [tss' [tes' [tc' [HF' [Hs' [Ho' Heq]]]]]].
+      exists tss', tes', tc'. repeat split; auto; try discriminate.
+      rewrite (app_assoc tes' tc' rest), Heq. lnorm. reflexivity.
+    - (* A_last *) intros Hne. destruct (IHrun Hne) as [u [-> Hy]].
+      exists [u], u. repeat split; auto; try constructor; auto.
+    - (* A_more *) intros Hne. destruct (IHrun1 Hne) as [u [-> Hy]]. noeof_split.
+      match goal with H : try_eat K_COMMA _ = Some _ |- _ => apply try_eat_cons in H; [|reflexivity]; destruct H as [-> Hkc] end.
+      noeof_split.
+      destruct (IHrun2 ltac:(assumption)) as [tss [tes [HF [Hs ->]]]].
+      exists (u :: tss), (u ++ c :: tes). repeat split.
+      + constructor; assumption.
+      + constructor; [ik | | exact Hs]. inv H1; inv HF; discriminate.
+      + lnorm. reflexivity.
+    - (* C_empty *) intros uc Hlp Hyc Hne. eat_all. noeof_split. range_all. rewrite !tpos_noeof by assumption.
+      exists [rp]. split; [reflexivity|].
+      apply (Y_call g callee uc lp rp [] [] []); auto; try ik; constructor.
+    - (* C_args *) intros uc Hlp Hyc Hne. destruct (IHrun Hne) as [tss [tes [HF [Hs ->]]]]. noeof_split. eat_all.
+      noeof_split. range_all. rewrite !tpos_noeof by assumption.
+      exists (tes ++ [rp]). split; [lnorm; reflexivity|].
+      eapply Y_call; eauto; ik.
+    - (* L_bin *) intros ul Hget Ht Hyl Hne. destruct (IHrun Hne) as [u [-> Hy]]. range_all.
+      rewrite !tpos_noeof by assumption. exists u. split; [reflexivity|].
+      eapply Y_binary; eauto. destruct l; cbn in H; inv H; auto.
+    - (* L_postfix *) intros ul Hget Ht Hyl Hne. range_all. rewrite !tpos_noeof by assumption.
+      exists []. split; [reflexivity|]. eapply Y_postfix; eauto.
+    - (* L_question *) intros ul Hget Ht Hyl Hne. led_kind_of Hget.
+      destruct (IHrun1 Hne) as [u1 [-> Hy1]]. noeof_split. eat_all. noeof_split.
+      destruct (IHrun2 ltac:(assumption)) as [u2 [-> Hy2]]. range_all. rewrite !tpos_noeof by assumption.
+      exists (u1 ++ c :: u2). split; [lnorm; reflexivity|].
+      apply Y_ternary; auto; ik.
+    - (* L_call *) intros ul Hget Ht Hyl Hne. led_kind_of Hget. apply IHrun; auto. ik.
+    - (* L_sub *) intros ul Hget Ht Hyl Hne. led_kind_of Hget.
+      destruct (IHrun Hne) as [u [-> Hy]]. noeof_split. eat_all. noeof_split. range_all.
+      rewrite !tpos_noeof by assumption. exists (u ++ [rb]). split; [lnorm; reflexivity|].
+      apply Y_sub; auto; ik.
+    - (* L_dot *) intros ul Hget Ht Hyl Hne. led_kind_of Hget. range_all.
+      destruct ts as [|nm r0].
+      { cbn in Hidx. pose proof (yields_idx_nonneg _ _ _ Hyl). lia. }
+      cbn [peek tl] in *. noeof_split. rewrite !tpos_noeof by assumption.
+      exists [nm]. split; [reflexivity|].
+      apply (Y_member g left ul t nm); auto. ik.
+    - (* L_dotcall *) intros ul Hget Ht Hyl Hne. led_kind_of Hget. range_all.
+      destruct ts as [|nm r0].
+      { cbn in Hidx. pose proof (yields_idx_nonneg _ _ _ Hyl). lia. }
+      cbn [peek tl] in *. noeof_split. eat_all. noeof_split. rewrite !tpos_noeof in * by assumption.
+      assert (Hm : yields g (EMember (span (expr_pos left) (tok_pos nm)) (Z.of_N (t_col t)) left (t_lexeme nm) (tok_pos nm))
+                     (ul ++ [t; nm])).
+      { apply (Y_member g left ul t nm); auto. ik. }
+      destruct (IHrun _ ltac:(ik) Hm ltac:(assumption)) as [u [-> Hy]].
+      exists (nm :: lp :: u). split; [reflexivity|].
+      replace (ul ++ t :: nm :: lp :: u) with ((ul ++ [t; nm]) ++ lp :: u) by (lnorm; reflexivity). exact Hy.
+    - (* Lp_stop *) intros ul Hyl Hne. exists []. split; [reflexivity|]. rewrite app_nil_r. exact Hyl.
+    - (* Lp_step *) intros ul Hyl Hne. pose proof (peek_infix_cons _ _ _ H0) as Hts.
+      destruct ts as [|t0 r0]; [discriminate|]. cbn [peek tl] in *. noeof_split.
+      destruct (IHrun1 _ H0 ltac:(assumption) Hyl ltac:(assumption)) as [u1 [-> Hy1]]. noeof_split.
+      destruct (IHrun2 _ Hy1 ltac:(assumption)) as [u2 [-> Hy2]].
+      exists (t0 :: u1 ++ u2). split; [lnorm; reflexivity|].
+      replace (ul ++ t0 :: u1 ++ u2) with ((ul ++ t0 :: u1) ++ u2) by (lnorm; reflexivity). exact Hy2.
+  Qed.
+End Yields.
+
+Lemma parse_yields : forall ops ts e,
+  table_ok ops = true -> no_eof ts = true ->
+  parse_tokens ops ts = POk e -> yields (new_grammar ops) e ts.
+Proof.
+  intros ops ts e Hok Hne H. unfold parse_tokens in H. bind_inv H. destruct x as [e1 rest].
+  destruct rest; inv H. apply p_expr_run in Hx.
+  apply (run_yields _ (table_ok_gram_ok ops Hok)) in Hx. cbn [P_y] in Hx.
+  destruct (Hx Hne) as [u [-> Hy]]. rewrite app_nil_r. exact Hy.
+Qed.
+
+(* ---------- remaining input is a suffix ---------- *)
+Definition j_ts (j : judg) : list token :=
+  match j with
+  | JExpr _ ts _ _ | JNud _ _ _ ts _ _ | JLoop _ _ ts _ _ | JLed _ _ _ _ ts _ _ | JCall _ _ ts _ _
+  | JElems _ ts _ _ | JPairs ts _ _ | JFields ts _ _ | JArgs ts _ _ => ts
+  end.
+Definition j_rest (j : judg) : list token :=
+  match j with
+  | JExpr _ _ _ r | JNud _ _ _ _ _ r | JLoop _ _ _ _ r | JLed _ _ _ _ _ _ r | JCall _ _ _ _ r
+  | JElems _ _ _ r | JPairs _ _ r | JFields _ _ r | JArgs _ _ r => r
+  end.
+
+Definition sfx (r ts : list token) : Prop := exists u, ts = u ++ r.
+Lemma sfx_refl : forall ts, sfx ts ts.
+Proof. intro ts. exists []. reflexivity. Qed.
+Lemma sfx_trans : forall a b c, sfx a b -> sfx b c -> sfx a c.
+Proof. intros a b c [u ->] [v ->]. exists (v ++ u). rewrite app_assoc. reflexivity. Qed.
+Lemma sfx_tl : forall ts, sfx (tl ts) ts.
+Proof. intros [|t r]; [exists []; reflexivity | exists [t]; reflexivity]. Qed.
+Lemma sfx_must_eat : forall k ts t r, must_eat k ts = POk (t, r) -> sfx r ts.
+Proof. intros k ts t r H. apply must_eat_inv in H. destruct H as [_ [-> _]]. apply sfx_tl. Qed.
+Lemma sfx_try_eat : forall k ts t r, try_eat k ts = Some (t, r) -> sfx r ts.
+Proof. intros k ts t r H. apply try_eat_some in H. destruct H as [_ [-> _]]. apply sfx_tl. Qed.
+
+Ltac sfx_facts :=
+  repeat match goal with
+  | H : must_eat _ _ = POk (_, _) |- _ => apply sfx_must_eat in H
+  | H : try_eat _ _ = Some (_, _) |- _ => apply sfx_try_eat in H
+  end.
+Ltac sfx_solve :=
+  repeat first [ apply sfx_refl | assumption | (eapply sfx_trans; [|eassumption]) | (eapply sfx_trans; [|apply sfx_tl]) ].
+
+Lemma run_suffix : forall g j, runr g j -> sfx (j_rest j) (j_ts j).
+Proof.
+  intros g j H. induction H; cbn [j_ts j_rest] in *; sfx_facts; sfx_solve.
+Qed.
+
+(* ---------- stage 5: the accepted tree is well-formed for the declared powers ---------- *)
+Definition olx (t : token) : Prop := existsb (list_eqb (t_kind t)) fixed_kinds = true \/ t_lexeme t = t_kind t.
+Definition toks_ok (ts : list token) : Prop := Forall olx ts.
+
+Lemma toks_sfx : forall r ts, sfx r ts -> toks_ok ts -> toks_ok r.
+Proof. intros r ts [u ->] H. unfold toks_ok in *. apply Forall_app in H. apply H. Qed.
+
+Lemma olx_notfixed : forall t, olx t -> notfixed (t_kind t) -> t_lexeme t = t_kind t.
+Proof. intros t [H|H] Hn; [unfold notfixed in Hn; congruence | exact H]. Qed.
+
+Ltac sfx_pre :=
+  repeat match goal with H : run _ _ _ |- _ => apply run_suffix in H; cbn [j_ts j_rest] in H end; sfx_facts.
+Ltac toks := (eapply toks_sfx; [|eassumption]); sfx_solve.
+
+Section Sound.
+  Variable g : grammar.
+  Hypothesis Hg : gram_ok g.
+
+  Definition lbpk (ts : list token) : Z := infix_lbp g (peek ts).
+  Definition closed_after (e : expr) (rest : list token) : Prop :=
+    le_inf (lbpk rest) (rom g e) = true /\ (ends_with_member e = true -> kind_is (peek rest) K_LPAREN = false).
+
+  Definition P_w (j : judg) : Prop :=
+    match j with
+    | JExpr rbp ts e rest => toks_ok ts -> wfp g rbp e = true /\ lbpk rest <= rbp /\ closed_after e rest
+    | JNud n bp t ts e rest =>
+        get (t_kind t) (g_prefix g) = Some (bp, n) -> olx t -> toks_ok ts ->
+        (forall rbp, wfp g rbp e = true) /\ closed_after e rest
+    | JLoop rbp lft ts e rest =>
+        toks_ok ts -> wfp g rbp lft = true -> closed_after lft ts ->
+        wfp g rbp e = true /\ lbpk rest <= rbp /\ closed_after e rest
+    | JLed l bp lft t ts e rest =>
+        get (t_kind t) (g_infix g) = Some (bp, l) -> olx t -> toks_ok ts ->
+        forall rbp, rbp < bp -> wfp g rbp lft = true -> le_inf bp (rom g lft) = true ->
+        (ends_with_member lft = true -> kind_is t K_LPAREN = false) -> infix_n_ok e = true ->
+        wfp g rbp e = true /\ closed_after e rest
+    | JCall callee lp ts e rest =>
+        toks_ok ts -> exists p col args, e = ECall p col callee args /\ forallb (wfp g 0) args = true
+    | JElems _ ts es rest => toks_ok ts -> forallb (wfp g 0) es = true
+    | JPairs ts kvs rest => toks_ok ts -> forallb (fun kv => wfp g 0 (fst kv) && wfp g 0 (snd kv)) kvs = true
+    | JFields ts fs rest => toks_ok ts -> forallb (fun f => wfp g 0 (snd f)) fs = true
+    | JArgs ts es rest => toks_ok ts -> forallb (wfp g 0) es = true
+    end.
+
+  Lemma closed_atom : forall e rest, rom g e = None -> ends_with_member e = false -> closed_after e rest.
+  Proof. intros e rest H1 H2. split; [rewrite H1; reflexivity | rewrite H2; discriminate]. Qed.
+
+  Lemma le_inf_zmin : forall a b o, a <= b -> le_inf a o = true -> le_inf a (zmin b o) = true.
+  Proof. intros a b [c|] H1 H2; cbn in *; apply Z.leb_le; [apply Z.leb_le in H2|]; lia. Qed.
+
+  Lemma toks_peek : forall ts, toks_ok ts -> ts = peek ts :: tl ts -> olx (peek ts).
+  Proof. intros ts H E. rewrite E in H. inv H. assumption. Qed.
+
+  Ltac nud_kind_of H :=
+    let Hk := fresh "Hkind" in
+    pose proof (go_prefix g Hg _ _ _ H) as Hk; unfold nud_spec in Hk; cbn [nud_kind] in Hk; destruct Hk as [Hk ?].
+  Ltac led_kind_of H :=
+    let Hk := fresh "Hkind" in
+    pose proof (go_infix g Hg _ _ _ H) as Hk; unfold led_spec in Hk; cbn [led_kind] in Hk; destruct Hk as [Hk ?].
+
+  Lemma run_wfp : forall j, runr g j -> P_w j.
+  Proof.
+    intros j H. induction H; cbn [P_w] in *.
+    - (* R_expr *) intros Htk. pose proof (peek_prefix_cons g Hg _ _ _ H) as Hts.
+      pose proof (toks_peek _ Htk Hts) as Hpk.
+      assert (Htk1 : toks_ok (tl ts)) by (sfx_pre; toks).
+      assert (Htk2 : toks_ok ts2) by (sfx_pre; toks).
+      destruct (IHrun1 H Hpk Htk1) as [Hw Hc]. apply IHrun2; auto.
+    - intros _ _ _. split; [reflexivity | apply closed_atom; reflexivity].
+    - intros _ _ _. split; [reflexivity | apply closed_atom; reflexivity].
+    - intros _ _ _. split; [reflexivity | apply closed_atom; reflexivity].
+    - intros _ _ _. split; [reflexivity | apply closed_atom; reflexivity].
+    - intros _ _ _. split; [reflexivity | apply closed_atom; reflexivity].
+    - intros _ _ _. split; [reflexivity | apply closed_atom; reflexivity].
+    - (* prefix *) intros Hget Hlx Htk. nud_kind_of Hget. destruct (IHrun Htk) as [Hw [Hstop [Hrom Hewm]]].
+      assert (Hpb : prefix_bp g (t_lexeme t) = Some bp).
+      { rewrite (olx_notfixed t Hlx Hkind). unfold prefix_bp. rewrite Hget. reflexivity. }
+      split.
+      + intro rbp. cbn [wfp]. rewrite Hpb. exact Hw.
+      + split; cbn [rom ends_with_member]; [|exact Hewm]. rewrite Hpb. apply le_inf_zmin; assumption.
+    - (* group *) intros _ _ Htk. destruct (IHrun Htk) as [Hw _].
+      split; [intro; exact Hw | apply closed_atom; reflexivity].
+    - (* obj *) intros _ _ Htk. split; [intro; apply IHrun; exact Htk | apply closed_atom; reflexivity].
+    - split; [reflexivity | apply closed_atom; reflexivity].
+    - split; [reflexivity | apply closed_atom; reflexivity].
+    - (* list1 *) intros _ _ Htk. destruct (IHrun Htk) as [Hw _].
+      split; [intro; cbn [wfp forallb]; rewrite Hw; reflexivity | apply closed_atom; reflexivity].
+    - (* listn *) intros _ _ Htk. destruct (IHrun1 Htk) as [Hw _].
+      assert (Htk2 : toks_ok ts2) by (sfx_pre; toks).
+      split; [intro; cbn [wfp forallb]; rewrite Hw, (IHrun2 Htk2); reflexivity | apply closed_atom; reflexivity].
+    - (* map1 *) intros _ _ Htk. destruct (IHrun1 Htk) as [Hw1 _].
+      assert (Htk2 : toks_ok ts2) by (sfx_pre; toks). destruct (IHrun2 Htk2) as [Hw2 _].
+      split; [intro; cbn [wfp forallb fst snd]; rewrite Hw1, Hw2; reflexivity | apply closed_atom; reflexivity].
+    - (* mapn *) intros _ _ Htk. destruct (IHrun1 Htk) as [Hw1 _].
+      assert (Htk2 : toks_ok ts2) by (sfx_pre; toks). destruct (IHrun2 Htk2) as [Hw2 _].
+      assert (Htk4 : toks_ok ts4) by (sfx_pre; toks).
+      split; [intro; cbn [wfp forallb fst snd]; rewrite Hw1, Hw2, (IHrun3 Htk4); reflexivity | apply closed_atom; reflexivity].
+    - (* E_close *) reflexivity.
+    - intros Htk. destruct (IHrun Htk) as [Hw _]. cbn [forallb]. rewrite Hw. reflexivity.
+    - intros Htk. destruct (IHrun1 Htk) as [Hw _]. assert (Htk2 : toks_ok ts2) by (sfx_pre; toks).
+      cbn [forallb]. rewrite Hw, (IHrun2 Htk2). reflexivity.
+    - (* P_close *) reflexivity.
+    - intros Htk. destruct (IHrun1 Htk) as [Hw1 _]. assert (Htk2 : toks_ok ts2) by (sfx_pre; toks).
+      destruct (IHrun2 Htk2) as [Hw2 _]. cbn [forallb fst snd]. rewrite Hw1, Hw2. reflexivity.
+    - intros Htk. destruct (IHrun1 Htk) as [Hw1 _]. assert (Htk2 : toks_ok ts2) by (sfx_pre; toks).
+      destruct (IHrun2 Htk2) as [Hw2 _]. assert (Htk4 : toks_ok ts4) by (sfx_pre; toks).
+      cbn [forallb fst snd]. rewrite Hw1, Hw2, (IHrun3 Htk4). reflexivity.
+    - (* F_close *) reflexivity.
+    - intros Htk. assert (Htk2 : toks_ok ts2) by (sfx_pre; toks).
+      destruct (IHrun Htk2) as [Hw _]. cbn [forallb fst snd]. rewrite Hw. reflexivity.
+    - intros Htk. assert (Htk2 : toks_ok ts2) by (sfx_pre; toks).
+      destruct (IHrun1 Htk2) as [Hw _]. assert (Htk4 : toks_ok ts4) by (sfx_pre; toks).
+      cbn [forallb fst snd]. rewrite Hw, (IHrun2 Htk4). reflexivity.
+    - (* A_last *) intros Htk. destruct (IHrun Htk) as [Hw _]. cbn [forallb]. rewrite Hw. reflexivity.
+    - intros Htk. destruct (IHrun1 Htk) as [Hw _]. assert (Htk2 : toks_ok ts2) by (sfx_pre; toks).
+      cbn [forallb]. rewrite Hw, (IHrun2 Htk2). reflexivity.
+    - (* C_empty *) intros _. do 3 eexists. split; reflexivity.
+    - (* C_args *) intros Htk. do 3 eexists. split; [reflexivity | apply IHrun; exact Htk].
+    - (* L_bin *) intros Hget Hlx Htk rbp Hlt Hwl Hrl Hml Hok. destruct (IHrun Htk) as [Hw [Hstop [Hrom Hewm]]].
+      assert (Hnf : notfixed (t_kind t) /\ (l = LBinL \/ l = LBinR \/ l = LBinN)).
+      { pose proof (go_infix g Hg _ _ _ Hget) as Hk. unfold led_spec in Hk.
+        destruct l; cbn in H; inv H; cbn [led_kind] in Hk; destruct Hk; auto. }
+      destruct Hnf as [Hnf Hl].
+      assert (Hie : infix_entry g (t_lexeme t) = Some (bp, l)).
+      { rewrite (olx_notfixed t Hlx Hnf). exact Hget. }
+      apply Z.ltb_lt in Hlt.
+      split.
+      + cbn [wfp]. rewrite Hie.
+        destruct Hl as [-> | [-> | ->]]; cbn in H; inv H; cbn [N.eqb Pos.eqb andb]; rewrite Hlt, Hwl, Hrl, Hw; cbn [andb];
+          try reflexivity.
+        cbn [infix_n_ok] in Hok. unfold same_binary. exact Hok.
+      + split; cbn [rom ends_with_member]; [|exact Hewm]. rewrite Hie. apply le_inf_zmin; [|exact Hrom].
+        destruct Hl as [-> | [-> | ->]]; cbn in H; inv H; cbn [rbp_of]; exact Hstop.
+    - (* L_postfix *) intros Hget Hlx Htk rbp Hlt Hwl Hrl Hml Hok. led_kind_of Hget.
+      assert (Hie : infix_entry g (t_lexeme t) = Some (bp, LPostfix)).
+      { rewrite (olx_notfixed t Hlx Hkind). exact Hget. }
+      apply Z.ltb_lt in Hlt. split; [|apply closed_atom; reflexivity].
+      cbn [wfp]. rewrite Hie, Hlt, Hwl, Hrl. reflexivity.
+    - (* L_question *) intros Hget Hlx Htk rbp Hlt Hwl Hrl Hml Hok. led_kind_of Hget. subst bp.
+      destruct (IHrun1 Htk) as [Hw1 _]. assert (Htk2 : toks_ok ts2) by (sfx_pre; toks).
+      destruct (IHrun2 Htk2) as [Hw2 [Hstop [Hrom Hewm]]]. apply Z.ltb_lt in Hlt.
+      split.
+      + cbn [wfp]. rewrite Hlt, Hwl, Hrl, Hw1, Hw2. reflexivity.
+      + split; cbn [rom ends_with_member]; [|exact Hewm]. apply le_inf_zmin; assumption.
+    - (* L_call *) intros Hget Hlx Htk rbp Hlt Hwl Hrl Hml Hok. led_kind_of Hget. subst bp.
+      destruct (IHrun Htk) as [p [col [args [-> Hargs]]]]. apply Z.ltb_lt in Hlt.
+      split; [|apply closed_atom; reflexivity].
+      assert (Hnm : ends_with_member left = false).
+      { destruct (ends_with_member left); [|reflexivity]. specialize (Hml eq_refl). unfold kind_is in Hml.
+        rewrite Hkind in Hml. discriminate. }
+      cbn [wfp]. rewrite Hlt, Hwl, Hrl, Hnm, Hargs. destruct left; reflexivity.
+    - (* L_sub *) intros Hget Hlx Htk rbp Hlt Hwl Hrl Hml Hok. led_kind_of Hget. subst bp.
+      destruct (IHrun Htk) as [Hw _]. apply Z.ltb_lt in Hlt.
+      split; [|apply closed_atom; reflexivity]. cbn [wfp]. rewrite Hlt, Hwl, Hrl, Hw. reflexivity.
+    - (* L_dot *) intros Hget Hlx Htk rbp Hlt Hwl Hrl Hml Hok. led_kind_of Hget. subst bp. apply Z.ltb_lt in Hlt.
+      split.
+      + cbn [wfp]. rewrite Hlt, Hwl, Hrl. reflexivity.
+      + split; [reflexivity|]. intros _. apply try_eat_none. assumption.
+    - (* L_dotcall *) intros Hget Hlx Htk rbp Hlt Hwl Hrl Hml Hok. led_kind_of Hget. subst bp. apply Z.ltb_lt in Hlt.
+      assert (Htk2 : toks_ok ts2) by (sfx_pre; toks).
+      destruct (IHrun Htk2) as [p' [col [args [-> Hargs]]]].
+      split; [|apply closed_atom; reflexivity].
+      cbn [wfp]. rewrite Hlt, Hwl, Hrl, Hargs. reflexivity.
+    - (* Lp_stop *) intros Htk Hw Hc. split; [exact Hw|]. split; [|exact Hc].
+      apply Z.ltb_ge in H. exact H.
+    - (* Lp_step *) intros Htk Hw [Hrom Hewm]. pose proof (peek_infix_cons g Hg _ _ _ H0) as Hts.
+      pose proof (toks_peek _ Htk Hts) as Hpk.
+      assert (Hlb : lbpk ts = bp). { unfold lbpk, infix_lbp. rewrite H0. reflexivity. }
+      fold (lbpk ts) in H. rewrite Hlb in *. apply Z.ltb_lt in H.
+      assert (Htk1 : toks_ok (tl ts)) by (sfx_pre; toks).
+      assert (Htk2 : toks_ok ts2) by (sfx_pre; toks).
+      destruct (IHrun1 H0 Hpk Htk1 rbp H Hw Hrom Hewm H2) as [Hw' Hc'].
+      apply IHrun2; assumption.
+  Qed.
+End Sound.
+
+Lemma parse_wfp : forall ops ts e,
+  table_ok ops = true -> no_eof ts = true ->
+  Forall (fun t => existsb (list_eqb (t_kind t)) fixed_kinds = true \/ t_lexeme t = t_kind t) ts ->
+  parse_tokens ops ts = POk e -> wfp (new_grammar ops) 0 e = true.
+Proof.
+  intros ops ts e Hok _ Hlx H. unfold parse_tokens in H. bind_inv H. destruct x as [e1 rest].
+  destruct rest; inv H. apply p_expr_run in Hx.
+  apply (run_wfp _ (table_ok_gram_ok ops Hok)) in Hx. cbn [P_w] in Hx. apply Hx. exact Hlx.
+Qed.
